@@ -98,14 +98,16 @@ CLAIMED = {
                   "(-1)^n sum kappa^(2n), gradient inner product of order 2n+1 = i (-1)^n sum v kappa^(2n+1), order 0 = 1, parity guards (translated from the source); the Poisson solver returns "
                   "lam*u = -f where the symbol lam is non-zero and 0 where it vanishes; over a formally real field the order-2 symbol vanishes exactly at the mean mode. Operator arrays, "
                   "Poisson._inv_operator/step_fourier compared with the extracted model at every stored mode in exact rationals (incl. L = 1e5 and 1e-3). build_derivative_operator / "
-                  "build_scaled_wavenumbers are re-translated from the source on every run and proved to be i (2 pi / L) k_c with k_c the layout's signed wavenumber (any D, both indexings).",
+                  "build_scaled_wavenumbers are re-translated from the source on every run and proved to be i (2 pi / L) k_c with k_c the layout's signed wavenumber (any D, both indexings); "
+                  "Poisson.__init__ / step_fourier are re-translated as well and proved equal to the Poisson model with the Laplace symbol of the requested order.",
              note="Symbol calculus for exponentials and the rfftn/irfftn contract (C04) are used; ex.derivative and Poisson are additionally checked against analytic derivatives/solutions of random "
                   "Nyquist-free trigonometric polynomials on the real code.",
              technique="Rocq proof (ring/field identities, formal reality; derivative operator regenerated from the source by an AST translator) + exact-rational operator correspondence", design="§4 C05"),
  "C10": dict(text="Theorems (any field of characteristic 0, D = 2, 3, every mode, every input): the Leray projection has zero divergence wherever the Laplace symbol is non-zero, is idempotent, fixes "
                   "divergence-free fields and is the identity at the mean mode; make_incompressible equals it at every mode (premise: Laplace symbol vanishes only where d = 0, proved for real "
                   "wavenumbers over a formally real field, hence independent of L); every ETDRK order 0-4 (stage programs translated from the source) maps divergence-free states to divergence-free "
-                  "states when the nonlinear term is divergence free and the coefficient arrays are channel-independent. Leray / make_incompressible compared with the extracted model at every stored mode.",
+                  "states when the nonlinear term is divergence free and the coefficient arrays are channel-independent. Leray / make_incompressible compared with the extracted model at every stored mode; "
+                  "the per-mode arithmetic of make_incompressible is re-translated from the source on every run (harness/translate/linops.py) and proved equal to the model, hence divergence free.",
              note="That ProjectedConvection3d(Kolmogorov) is divergence free for every input follows from its last operation being the Leray projection (model Nonlin/Terms.v, tied by the C03 correspondence) "
                   "and is checked on the real code with white noise, as is preservation over rollouts for several L (incl. L = 20).",
              technique="Rocq proof (field identities per mode, linearity of the stage programs) + exact-rational correspondence", design="§4 C10"),
